@@ -27,6 +27,13 @@ def build_driver(name, fine=False):
             ok, out = build_inst()
             if not ok:
                 return False, exe, out
+            # the models treat node / cell / state references as ordinary (GC-visible) pointers: go vet's unsafeptr pass
+            # is clean on the pinned sources; a uintptr round trip would let the collector recycle a referenced object
+            rc, out = C.sh(["go", "vet", "-unsafeptr", "./queue", "./adder", "./circuit-breaker", "./worker-pool", "./retry"],
+                           cwd=C.REPO, env=C.GOENV, timeout=600)
+            vet = "\n".join(l for l in out.splitlines() if "possible misuse of unsafe.Pointer" in l)
+            if vet:
+                return False, exe, "go vet -unsafeptr reports on the current sources (the model assumes GC-visible pointers):\n" + vet
             rc, out = C.sh(["go", "build", "-o", exe, "./vdrv_" + name], cwd=INST, env=C.GOENV, timeout=1200)
             return rc == 0, exe, out
         fg = os.path.join(C.BUILD, "bin", "finegrain")
